@@ -303,7 +303,13 @@ fn sites(lines: &[Line]) -> Vec<Site> {
     v
 }
 
-const HUGE: [&str; 6] = [
+const HUGE: [&str; 11] = [
+    // (the smallest ones: 2^63, 2^63 + 1, 2^64 - 1 in every radix)
+    "9223372036854775808",
+    "9223372036854775809",
+    "18446744073709551615",
+    "0x8000000000000000",
+    "01000000000000000000000",
     "18446744073709551616",
     "0x10000000000000000",
     "0B10000000000000000000000000000000000000000000000000000000000000000",
